@@ -583,7 +583,7 @@ register(C06())
 # C08 / C09 — accepted streams: the two parsers agree; pictures are well formed
 # --------------------------------------------------------------------------
 
-ACCEPT_KINDS = ["f_frag_len"] * 2 + ["f_coeff"] * 6 + ["f_coeff_huge"] * 3 + ["f_block_cut"] * 4 + ["flip", "flip", "f_lenbyte", "f_lenbyte", "f_bool", "f_uint", "f_fixed", "set", "f_picnum", "burst", "zero", "f_unit_dup", "f_unit_drop", "append", "f_ld_resize", "f_ld_resize", "f_frag_alias"]
+ACCEPT_KINDS = ["f_coeff_long"] * 2 + ["f_frag_len"] * 2 + ["f_coeff"] * 6 + ["f_coeff_huge"] * 3 + ["f_block_cut"] * 4 + ["flip", "flip", "f_lenbyte", "f_lenbyte", "f_bool", "f_uint", "f_fixed", "set", "f_picnum", "burst", "zero", "f_unit_dup", "f_unit_drop", "append", "f_ld_resize", "f_ld_resize", "f_frag_alias"]
 
 
 def h_quant_factor(i):
